@@ -4,6 +4,8 @@ package container
 
 // Machine-checked contracts (govc, see /verif/DESIGN.md). Comment-only file.
 
+//@ ghost pred isAlpha() bool
+
 // ---- C35: the approve* helpers co-sign the main transaction of a notary request; they
 // do not check alphabet membership themselves, so they demand it from their callers
 // (isAlpha() is declared in pkg/innerring/verif_contracts.go and established only by
@@ -24,3 +26,132 @@ package container
 //@ func (*Processor).approveSetEACL
 //@   property C35
 //@   requires [caller_checked_alphabet_membership] isAlpha()
+
+// ---- C37: the approve* helpers also demand that the matching check* function returned
+// nil for this request; each check* returns nil only if the owner authorised the
+// operation (verifySignature nil) and the operation-specific conditions hold.
+
+//@ ghost pred ownerAuthorised() bool
+//@ ghost pred putChecked() bool
+//@ ghost pred deleteChecked() bool
+//@ ghost pred setEACLChecked() bool
+//@ ghost pred setAttributeChecked() bool
+//@ ghost pred removeAttributeChecked() bool
+//@ ghost pred policyVerified() bool
+//@ ghost pred eaclTableValidated() bool
+//@ ghost pred aclExtendable() bool
+
+//@ func (*Processor).approvePutContainer
+//@   property C37
+//@   requires [put_was_checked] putChecked()
+//@ func (*Processor).approveDeleteContainer
+//@   property C37
+//@   requires [delete_was_checked] deleteChecked()
+//@ func (*Processor).approveSetEACL
+//@   property C37
+//@   requires [set_eacl_was_checked] setEACLChecked()
+//@ func (*Processor).approveSetAttributeRequest
+//@   property C37
+//@   requires [set_attribute_was_checked] setAttributeChecked()
+//@ func (*Processor).approveRemoveAttributeRequest
+//@   property C37
+//@   requires [remove_attribute_was_checked] removeAttributeChecked()
+
+//@ callrule policy_verify_fact in (*Processor).checkPutContainer
+//@   property C37
+//@   callee (netmap.PlacementPolicy).Verify
+//@   defines err == nil ==> policyVerified()
+//@ func (*Processor).checkPutContainer
+//@   property C37
+//@   ensures [owner_authorised_and_policy_valid] err == nil ==> ownerAuthorised() && policyVerified()
+//@   defines err == nil ==> putChecked()
+//@ func (*Processor).checkDeleteContainer
+//@   property C37
+//@   ensures [owner_authorised] err == nil ==> ownerAuthorised()
+//@   defines err == nil ==> deleteChecked()
+//@ func (*Processor).checkSetAttributeRequest
+//@   property C37
+//@   ensures [owner_authorised] err == nil ==> ownerAuthorised()
+//@   defines err == nil ==> setAttributeChecked()
+//@ func (*Processor).checkRemoveAttributeRequest
+//@   property C37
+//@   ensures [owner_authorised] err == nil ==> ownerAuthorised()
+//@   defines err == nil ==> removeAttributeChecked()
+
+//@ callrule eacl_extendable_fact in (*Processor).checkSetEACL
+//@   property C37
+//@   callee (acl.Basic).Extendable
+//@   defines result ==> aclExtendable()
+//@ func (*Processor).checkSetEACL
+//@   property C37
+//@   ensures [table_valid_acl_extendable_owner_authorised] err == nil ==> eaclTableValidated() && aclExtendable() && ownerAuthorised()
+//@   defines err == nil ==> setEACLChecked()
+
+// owner authorisation: a direct owner signature, a valid V2 session, or a V1 session token
+// that is authentic, carries the verb, applies to the container (when one is given), was
+// issued by the owner, is within its lifetime, and whose session key signed the data.
+//@ ghost pred directOwnerSignature() bool
+//@ ghost pred sessionV2Verified() bool
+//@ ghost pred tokenAuthentic() bool
+//@ ghost pred tokenVerbOK() bool
+//@ ghost pred tokenContainerOK() bool
+//@ ghost pred tokenIssuedByOwner() bool
+//@ ghost pred tokenWithinLifetime() bool
+//@ ghost pred sessionKeySignedData() bool
+//@ callrule vs_direct in (*Processor).verifySignature
+//@   property C37
+//@   callee crypto.AuthenticateContainerRequest
+//@   defines err == nil ==> directOwnerSignature()
+//@ callrule vs_auth in (*Processor).verifySignature
+//@   property C37
+//@   callee crypto.AuthenticateToken
+//@   defines err == nil ==> tokenAuthentic()
+//@ callrule vs_verb in (*Processor).verifySignature
+//@   property C37
+//@   callee *).AssertVerb
+//@   defines result ==> tokenVerbOK()
+//@ callrule vs_cid in (*Processor).verifySignature
+//@   property C37
+//@   callee *).AppliedTo
+//@   defines result ==> tokenContainerOK()
+//@ callrule vs_issuer in (*Processor).verifySignature
+//@   property C37
+//@   callee session.IssuedBy
+//@   defines result ==> tokenIssuedByOwner()
+//@ callrule vs_sig in (*Processor).verifySignature
+//@   property C37
+//@   callee *).VerifySessionDataSignature
+//@   defines result ==> sessionKeySignedData()
+//@ func (*Processor).verifySessionV2
+//@   property C37
+//@   defines err == nil ==> sessionV2Verified()
+//@ func (*Processor).verifySignature
+//@   property C37
+//@   ensures [authorised_by_owner_signature_or_valid_session] err == nil ==> directOwnerSignature() || sessionV2Verified() || (tokenAuthentic() && tokenVerbOK() && (v.idContainerSet ==> tokenContainerOK()) && tokenIssuedByOwner() && tokenWithinLifetime() && sessionKeySignedData())
+//@   defines err == nil ==> ownerAuthorised()
+
+//@ ghost pred validAtCurrentEpoch() bool
+//@ callrule lifetime_validat_fact in (*Processor).checkTokenLifetime
+//@   property C37
+//@   callee *).ValidAt
+//@   defines result ==> validAtCurrentEpoch()
+//@ func (*Processor).checkTokenLifetime
+//@   property C37
+//@   ensures [nbf_iat_exp_all_hold_at_current_epoch] err == nil ==> validAtCurrentEpoch()
+//@   defines err == nil ==> tokenWithinLifetime()
+
+// eACL changes must not touch system roles
+//@ ghost field sawSystemRole(x int) bool
+//@ callrule eacl_target_role_fact in validateEACL
+//@   property C37
+//@   callee *).Role
+//@   assigns sawSystemRole
+//@   defines sawSystemRole(0) == (old(sawSystemRole(0)) || result == eacl.RoleSystem)
+//@ func validateEACL
+//@   property C37
+//@   valid !sawSystemRole(0)
+//@   loop 1 invariant !sawSystemRole(0)
+//@   loop 2 invariant !sawSystemRole(0)
+//@   loop 3 invariant !sawSystemRole(0)
+//@   ensures [no_system_role_target] err == nil ==> !sawSystemRole(0)
+//@   defines err == nil ==> eaclTableValidated()
